@@ -27,7 +27,7 @@ ASSUMPTIONS = [
 BUDGET = {"quick": 70, "thorough": 700}
 ROUNDS = {"thorough": 10}
 FLOORS = {"logdet_comparisons": {"quick": 1500, "thorough": 12000}, "inverse_round_trips": {"quick": 1000, "thorough": 8000},
-          "transformed_parameter_calls": 200, "tree_model_calls": 100, "tree_model_pre_reads": 3, "kinds": 13}
+          "transformed_parameter_calls": 200, "tree_model_calls": 100, "tree_model_pre_reads": 3, "kinds": 13, "api_tree_model_calls": 100, "updates_through_a_view": 100, "rates_far_from_one": 20}
 
 PLAIN = ["CumSum", "CumSumExp", "SoftPlus", "CumSumSoftPlus", "Log", "TrilExpDiagonal"]
 TORCH = ["Exp", "Sigmoid", "Affine", "AffineParam", "StickBreaking"]
@@ -68,7 +68,7 @@ def cases(tier, seed):
                 B = max(batch, 1)
                 u = rng.uniform(0.02, 0.98, (B, max(n - 2, 0)))
                 c["ratios"] = u.tolist() if batch else u[0].tolist()
-            out.append({"kind": kind, "tree": c, "seed": int(rng.integers(2**31)), "route": str(rng.choice(["direct", "model"]))})
+            out.append({"kind": kind, "tree": c, "seed": int(rng.integers(2**31)), "route": str(rng.choice(["direct", "model", "api"] if kind in ("GeneralNodeHeight", "DifferenceNodeHeight") else ["direct", "model"]))})
             j += 1
     return out
 
@@ -242,10 +242,19 @@ def _tp_checks(V, C, kind, tp, dic, x, rng, elementwise, stick):
     """TransformedParameter(): the log-Jacobian of its transform at the current value, before and after an update."""
     import torch
 
-    for step in range(2):
+    for step in range(3):
         if step == 1:
             x = torch.tensor(np.exp(rng.normal(0, 1.5, tuple(x.shape)))) if kind in ("Log", "LogDifferenceRate") else torch.tensor(rng.normal(0, 3.0, tuple(x.shape)))
             dic["tp.x"].tensor = x  # update through the public parameter interface
+        if step == 2:
+            # update of one coordinate through a view of the wrapped parameter (what an operator on a single entry does)
+            from torchtree.core.parameter import ViewParameter
+
+            view = ViewParameter(None, dic["tp.x"], slice(0, 1))
+            shp = tuple(x.shape[:-1]) + (1,)
+            view.tensor = torch.tensor(np.exp(rng.normal(0, 1.5, shp))) if kind in ("Log", "LogDifferenceRate") else torch.tensor(rng.normal(0, 3.0, shp))
+            x = dic["tp.x"].tensor.detach().clone()
+            C["updates_through_a_view"] = C.get("updates_through_a_view", 0) + 1
         val = tt.as_np(tp(), "C07:not-a-tensor:TransformedParameter:" + kind, "TransformedParameter()")
         y = tt.as_np(tp.tensor, "C07:not-a-tensor:TransformedParameter:" + kind, "TransformedParameter.tensor")
         C["transformed_parameter_calls"] += 1
@@ -285,7 +294,11 @@ def run_tree(case, V, C):
     if kind == "LogDifferenceRate":
         tr = LogDifferenceRateTransform(tree)
         shape = ([B] if B else []) + [2 * n - 2]
-        x = torch.tensor(np.exp(rng.normal(0, 1.0, shape)))
+        # rates of order one, and of the size of real substitution rates per site per year (their product leaves the float range)
+        loc = float(rng.choice([0.0, 0.0, -8.0, -14.0, 14.0]))
+        x = torch.tensor(np.exp(rng.normal(loc, 1.0, shape)))
+        if loc != 0.0:
+            C["rates_far_from_one"] = 1
         if case["route"] == "direct":
             _compare(V, C, kind, tr, x, where="direct", extra=extra)
         else:
@@ -311,11 +324,55 @@ def run_tree(case, V, C):
             inv_tol = inv_tol + 1e-9
         _compare(V, C, kind, tr, x, where="direct", extra=extra, inv_tol=inv_tol)
         return
+    if case["route"] == "api":
+        # the model built through the Python API on ONE plain Parameter, which is then changed in place and announced (optimiser
+        # protocol), and through a view of its last entry (the root height / the root's increment)
+        from torchtree import Parameter
+        from torchtree.core.parameter import ViewParameter
+        from torchtree.evolution.tree_model import ReparameterizedTimeTreeModel
+
+        p = Parameter("p", x.clone())
+        t2 = ReparameterizedTimeTreeModel("tree.api", tree.tree, dic["taxa"], **({"ratios_root_height": p} if tc["param"] == "ratio" else {"shifts": p}))
+        oracle_tr = type(t2.transform)(t2)  # an instance of its own for the oracle: the model's transform object is not touched by the monitor
+        for step in range(3):
+            if step == 1:
+                with torch.no_grad():
+                    p.tensor[..., -1:] *= 1.3
+                    if tc["param"] != "ratio":
+                        p.tensor[..., :-1] *= 0.7
+                p.fire_parameter_changed()
+            elif step == 2:
+                ViewParameter(None, p, slice(-1, None)).tensor = p.tensor[..., -1:].detach() * 1.21
+            cur = p.tensor.detach().clone()
+            val = tt.as_np(t2(), "C07:not-a-tensor:tree-model", "ReparameterizedTimeTreeModel()")
+            hts = tt.as_np(t2.node_heights, "C07:not-a-tensor:tree-model", "node_heights")[..., n:]
+            C["tree_model_calls"] += 1
+            C["api_tree_model_calls"] = C.get("api_tree_model_calls", 0) + 1
+            want_h = oracle_tr(cur).detach().numpy()
+            if hts.shape != want_h.shape or np.abs(hts - want_h).max() > 1e-12 * max(1.0, np.abs(want_h).max()):
+                V.append(tt.viol("C07:tree-model:api:heights-not-of-current-value:" + kind, "API-built model, step %d: node heights are not transform(current parameter value) (max diff %.3g)" % (
+                    step, np.abs(hts - want_h).max() if hts.shape == want_h.shape else float("nan")), extra=extra))
+                return
+            rows = cur.reshape(-1, cur.shape[-1])
+            vf = val.reshape(-1)
+            if vf.shape[0] != rows.shape[0]:
+                V.append(tt.viol("C07:tree-model:shape:" + kind, "API-built ReparameterizedTimeTreeModel() has shape %s for parameters of shape %s" % (val.shape, tuple(cur.shape)), extra=extra))
+                return
+            for i in range(rows.shape[0]):
+                ok, ref = _agree(vf[i], lambda v: oracle_tr(v), rows[i].clone())
+                if ref is None:
+                    continue
+                C["logdet_comparisons"] += 1
+                if not ok:
+                    V.append(tt.viol("C07:tree-model:api:logdet:" + kind, "API-built ReparameterizedTimeTreeModel() returns %.12g at step %d (0 as built, 1 in-place update + notification, 2 view assignment), AD Jacobian at the current value gives %.12g" % (vf[i], step, ref), extra=extra, x=rows[i].tolist()))
+                    return
+        return
     # through the model: ReparameterizedTimeTreeModel() is the log-Jacobian at the current value, also after an update
     # what is read before the update: the model itself, or only the heights / branch lengths it derives (the log-Jacobian
     # cache is then still dirty when the update arrives)
     pre = int(rng.integers(0, 3))
     C["tree_model_pre_reads"] = [pre]
+    oracle_tree_tr = type(tree.transform)(tree)  # the oracle differentiates an instance of its own
     for step in range(2):
         if step == 0 and pre:
             _ = tree.node_heights if pre == 1 else tree.branch_lengths()
@@ -338,7 +395,7 @@ def run_tree(case, V, C):
             return
         vf = val.reshape(-1)
         for i in range(rows.shape[0]):
-            ok, ref = _agree(vf[i], lambda v: tree.transform(v), rows[i].clone())
+            ok, ref = _agree(vf[i], lambda v: oracle_tree_tr(v), rows[i].clone())
             if ref is None:
                 continue
             C["logdet_comparisons"] += 1
